@@ -171,8 +171,21 @@ def _eliminate_returns(stmts: List[ast.stmt], result) -> Tuple[List[ast.stmt], b
                 hs.append(nh)
                 all_h = all_h and (hr or _ends_in_raise(hb))
             new.handlers = hs
-            out.append(new)
             any_return = br or orr or any(isinstance(x, ast.Return) for h in st.handlers for x in ast.walk(h))
+            if br and not st.orelse and not st.finalbody and not all_h:
+                # try: ...; return X  /  except E: <falls through>  /  REST      — the statements after the try run only on the
+                # handler paths, so they move to the end of every handler that falls through
+                r, rr = _eliminate_returns(stmts[i + 1:], result)
+                every = True
+                for nh, h in zip(hs, st.handlers):
+                    hb, hr = _eliminate_returns(h.body, result)
+                    if hr or _ends_in_raise(hb):
+                        continue
+                    nh.body = (hb + copy.deepcopy(r)) or [ast.Pass()]
+                    every = every and rr
+                out.append(new)
+                return out, every
+            out.append(new)
             if (br or orr) and all_h:
                 return out, True
             if any_return and not ((br or orr) and all_h):
@@ -702,7 +715,7 @@ class _AttrConst(ast.NodeTransformer):
 
 
 def _literal_elements(repo: Optional[Repo], ci: Optional[ClassInfo], e: ast.expr, env: Dict[str, List[ast.expr]],
-                      indexable: Optional[Set[str]] = None) -> Optional[List[ast.expr]]:
+                      indexable: Optional[Set[str]] = None, sf: Optional[SourceFile] = None) -> Optional[List[ast.expr]]:
     """The elements of an iterable that is known when reading the code: a tuple/list display, range(<small constant>),
     a local bound to such a display, or a class/module constant that folds to a short tuple of strings / numbers."""
     if isinstance(e, (ast.Tuple, ast.List)) and not any(isinstance(x, ast.Starred) for x in e.elts):
@@ -710,9 +723,9 @@ def _literal_elements(repo: Optional[Repo], ci: Optional[ClassInfo], e: ast.expr
     if isinstance(e, ast.Name) and e.id in env:
         return list(env[e.id])
     if isinstance(e, ast.Call) and isinstance(e.func, ast.Name) and e.func.id in ("list", "tuple", "iter") and len(e.args) == 1:
-        return _literal_elements(repo, ci, e.args[0], env)
+        return _literal_elements(repo, ci, e.args[0], env, indexable, sf)
     if isinstance(e, ast.Call) and isinstance(e.func, ast.Name) and e.func.id == "enumerate" and 1 <= len(e.args) <= 2 and not e.keywords:
-        inner = _literal_elements(repo, ci, e.args[0], env)
+        inner = _literal_elements(repo, ci, e.args[0], env, indexable, sf)
         start = 0
         if len(e.args) == 2:
             if not (isinstance(e.args[1], ast.Constant) and isinstance(e.args[1].value, int)):
@@ -721,7 +734,7 @@ def _literal_elements(repo: Optional[Repo], ci: Optional[ClassInfo], e: ast.expr
         if inner is not None:
             return [ast.Tuple(elts=[ast.Constant(value=start + i), x], ctx=ast.Load()) for i, x in enumerate(inner)]
     if isinstance(e, ast.Call) and isinstance(e.func, ast.Name) and e.func.id == "zip" and e.args and not e.keywords:
-        cols = [_literal_elements(repo, ci, a, env) for a in e.args]
+        cols = [_literal_elements(repo, ci, a, env, indexable, sf) for a in e.args]
         if all(c is not None for c in cols):
             n = min(len(c) for c in cols)
             return [ast.Tuple(elts=[c[i] for c in cols], ctx=ast.Load()) for i in range(n)]
@@ -740,7 +753,7 @@ def _literal_elements(repo: Optional[Repo], ci: Optional[ClassInfo], e: ast.expr
     is_const_name = isinstance(e, (ast.Name, ast.Attribute))
     if repo is not None and (is_range or is_const_name):
         try:
-            v = repo.fold(e, ci=ci)
+            v = repo.fold(e, ci=ci, sf=sf)
         except Exception:
             v = None
         if isinstance(v, range):
@@ -773,7 +786,7 @@ def _bind_target(target: ast.expr, value: ast.expr) -> Optional[Dict[str, ast.ex
     return None
 
 
-def unroll(fn: ast.FunctionDef, repo: Optional[Repo] = None, ci: Optional[ClassInfo] = None) -> ast.FunctionDef:
+def unroll(fn: ast.FunctionDef, repo: Optional[Repo] = None, ci: Optional[ClassInfo] = None, sf: Optional[SourceFile] = None) -> ast.FunctionDef:
     """Copy of `fn` with loops and comprehensions over iterables known from the source unrolled, constant-name
     getattr/setattr written as attribute access, and `yield from chain(...)` over known lists split into single
     `yield from`s.  The iteration space must be visible in the code (≤ 16 elements); everything else is left alone."""
@@ -788,7 +801,7 @@ def unroll(fn: ast.FunctionDef, repo: Optional[Repo] = None, ci: Optional[ClassI
                 node = self.generic_visit(node)
                 if len(node.generators) == 1 and not node.generators[0].ifs:
                     g = node.generators[0]
-                    els = _literal_elements(repo, ci, g.iter, env)
+                    els = _literal_elements(repo, ci, g.iter, env, None, sf)
                     if els is not None:
                         out = []
                         for x in els:
@@ -840,7 +853,7 @@ def unroll(fn: ast.FunctionDef, repo: Optional[Repo] = None, ci: Optional[ClassI
             # --- loops over known elements
             if isinstance(st, ast.For) and not st.orelse:
                 it = expr_unroll(copy.deepcopy(st.iter), env)
-                els = _literal_elements(repo, ci, it, env, indexable)
+                els = _literal_elements(repo, ci, it, env, indexable, sf)
                 def own_flow(stmts) -> bool:
                     for b in stmts:
                         if isinstance(b, (ast.Break, ast.Continue)):
@@ -987,7 +1000,7 @@ def expand_aliases(fn: ast.FunctionDef) -> ast.FunctionDef:
 
 def normalize(repo: Repo, ci: Optional[ClassInfo], fn: ast.FunctionDef, sf: Optional[SourceFile] = None, aliases: bool = False, **kw) -> ast.FunctionDef:
     """flatten, then unroll (and, on request, expand attribute-chain aliases): the form in which rules read a function."""
-    out = unroll(flatten(repo, ci, fn, sf, **kw), repo, ci)
+    out = unroll(flatten(repo, ci, fn, sf, **kw), repo, ci, sf)
     if aliases:
         for _ in range(3):          # project = self.object; modules = project.modules
             nxt = expand_aliases(out)
@@ -1025,6 +1038,47 @@ def resolve_flags(fn: ast.FunctionDef) -> ast.FunctionDef:
             return movable(e.args[0], depth)
         return False
     flags = {k: v for k, v in defs.items() if not isinstance(v, (ast.Name, ast.Constant)) and movable(v)}
+    # comparisons that read attributes of never-rebound names (`too_low = value < self.min`) may move only across statements that
+    # neither call anything nor store to an attribute: nothing can change the attribute in between
+    number(fn)
+    stmts_all = [n for n in ast.walk(fn) if isinstance(n, ast.stmt) and n is not fn]
+
+    def attr_movable(e: ast.expr) -> bool:
+        if isinstance(e, ast.Compare):
+            return all(attr_movable(x) for x in [e.left] + list(e.comparators))
+        if isinstance(e, (ast.UnaryOp,)) and isinstance(e.op, ast.Not):
+            return attr_movable(e.operand)
+        if isinstance(e, ast.BoolOp):
+            return all(attr_movable(v) for v in e.values)
+        if isinstance(e, ast.Attribute):
+            ch = e
+            while isinstance(ch, ast.Attribute):
+                ch = ch.value
+            return isinstance(ch, ast.Name) and (ch.id in stable or ch.id == "self")
+        return movable(e)
+
+    def quiet_between(a: int, b: int) -> bool:
+        for st in stmts_all:
+            if a < pos(st) < b and not isinstance(st, (ast.If, ast.While, ast.For, ast.Try, ast.With)):
+                for n in ast.walk(st):
+                    if isinstance(n, (ast.Call, ast.Await, ast.Yield, ast.YieldFrom)) or \
+                            (isinstance(n, (ast.Attribute, ast.Subscript)) and isinstance(n.ctx, (ast.Store, ast.Del))):
+                        return False
+        return True
+    for st in stmts_all:
+        if isinstance(st, ast.Assign) and len(st.targets) == 1 and isinstance(st.targets[0], ast.Name):
+            k = st.targets[0].id
+            if k in defs and k not in flags and defs[k] is st.value and not isinstance(st.value, (ast.Name, ast.Constant, ast.Attribute)) \
+                    and attr_movable(st.value):
+                uses = [n for n in ast.walk(fn) if isinstance(n, ast.Name) and n.id == k and isinstance(n.ctx, ast.Load)]
+                tests = [t for t in ast.walk(fn) if isinstance(t, (ast.If, ast.While, ast.IfExp))]
+                ok = True
+                for u in uses:
+                    host = [t for t in tests if any(x is u for x in ast.walk(t.test))]
+                    if not host or not all(pos(h) > pos(st) and quiet_between(pos(st), pos(h)) for h in host):
+                        ok = False
+                if ok and uses:
+                    flags[k] = st.value
     if not flags:
         return fn
 
@@ -1045,8 +1099,76 @@ def resolve_flags(fn: ast.FunctionDef) -> ast.FunctionDef:
         visit_If = visit_While = visit_IfExp = _t
     out = copy.deepcopy(fn)
     Tests().visit(out)
+    # a flag that is no longer read anywhere is dropped with its (pure) definition
+    still = {n.id for n in ast.walk(out) if isinstance(n, ast.Name) and isinstance(n.ctx, ast.Load)}
+    dead = {k for k in flags if k not in still}
+
+    class Drop(ast.NodeTransformer):
+        def visit_Assign(self, node):
+            if len(node.targets) == 1 and isinstance(node.targets[0], ast.Name) and node.targets[0].id in dead:
+                return None
+            return node
+    if dead:
+        Drop().visit(out)
+        for n in ast.walk(out):
+            for fld in ("body", "orelse", "finalbody"):
+                if isinstance(getattr(n, fld, None), list) and not getattr(n, fld) and fld == "body":
+                    n.body = [ast.Pass()]
     ast.fix_missing_locations(out)
+    number(out)
     return out
+
+
+def _negate(e: ast.expr) -> ast.expr:
+    if isinstance(e, ast.UnaryOp) and isinstance(e.op, ast.Not):
+        return e.operand
+    return ast.UnaryOp(op=ast.Not(), operand=e)
+
+
+def nest_guard_clauses(fn: ast.FunctionDef) -> ast.FunctionDef:
+    """A procedure (no return carries a value) with guard clauses `if C: return` followed by REST reads as `if not C: REST`."""
+    if any(isinstance(n, ast.Return) and n.value is not None and not (isinstance(n.value, ast.Constant) and n.value.value is None)
+           for n in ast.walk(fn)):
+        return fn
+
+    def block(stmts: List[ast.stmt]) -> List[ast.stmt]:
+        out: List[ast.stmt] = []
+        for i, st in enumerate(stmts):
+            if isinstance(st, ast.If) and not st.orelse and len(st.body) == 1 and isinstance(st.body[0], ast.Return) and stmts[i + 1:]:
+                rest = block(stmts[i + 1:])
+                new = ast.If(test=_negate(copy.deepcopy(st.test)), body=rest, orelse=[])
+                out.append(ast.copy_location(new, st))
+                return out
+            out.append(st)
+        return out
+    new = copy.deepcopy(fn)
+    new.body = block(new.body)
+    ast.fix_missing_locations(new)
+    number(new)
+    return new
+
+
+def split_ifexp_returns(fn: ast.FunctionDef) -> ast.FunctionDef:
+    """`return A if C else B`  reads as  `if C: return A` / `else: return B`  (so that path rules see the condition)."""
+    class X(ast.NodeTransformer):
+        def visit_Return(self, node):
+            if isinstance(node.value, ast.IfExp):
+                a = self.visit(ast.copy_location(ast.Return(value=node.value.body), node))
+                b = self.visit(ast.copy_location(ast.Return(value=node.value.orelse), node))
+                new = ast.If(test=node.value.test, body=[a] if not isinstance(a, list) else a, orelse=[b] if not isinstance(b, list) else b)
+                return ast.copy_location(new, node)
+            return node
+
+        def visit_FunctionDef(self, node):
+            if node is not new_fn:
+                return node
+            return self.generic_visit(node)
+        visit_Lambda = lambda self, node: node
+    new_fn = copy.deepcopy(fn)
+    X().visit(new_fn)
+    ast.fix_missing_locations(new_fn)
+    number(new_fn)
+    return new_fn
 
 
 # ------------------------------------------------------------------------------------ attribution of private helpers
